@@ -430,6 +430,10 @@ func (fx *FnExec) load(st *State, lv *LVal, p token.Pos) *Term {
 	case "elem":
 		name, s := fx.elemHeapName(lv.ety)
 		h := fx.heapGet(st, name, s)
+		if len(lv.path) > 0 {
+			// a field of a struct-typed slice element (s[i].f)
+			return fx.getPath(fx.elemAt(h, lv.slc, lv.idx), lv.ety, lv.path, lv.ipath)
+		}
 		return fx.elemAt(h, lv.slc, lv.idx)
 	case "pcell":
 		fx.nilCheck(st, lv.ptr, p)
@@ -464,6 +468,9 @@ func (fx *FnExec) store(st *State, lv *LVal, v *Term, p token.Pos) {
 		h := fx.heapGet(st, name, s)
 		base := SlcBase(lv.slc)
 		fx.assignCheckRef(st, base, "elem", p)
+		if len(lv.path) > 0 {
+			v = fx.setPath(fx.elemAt(h, lv.slc, lv.idx), lv.ety, lv.path, lv.ipath, v)
+		}
 		fx.heapSet(st, name, Store(h, base, Store(Select(h, base), Add(SlcOff(lv.slc), lv.idx), v)))
 	case "pcell":
 		fx.nilCheck(st, lv.ptr, p)
@@ -1608,6 +1615,12 @@ func (fx *FnExec) doFieldAddr(st *State, x *ssa.FieldAddr) {
 		} else {
 			fx.lvals[x] = &LVal{kind: "field", obj: base.obj, si: si, fidx: x.Field, ty: ft}
 		}
+	case "elem":
+		if _, isS := base.ety.Underlying().(*types.Struct); !isS {
+			fx.fail("FieldAddr on an element of type %s", base.ety)
+		}
+		fx.lvals[x] = &LVal{kind: "elem", slc: base.slc, idx: base.idx, ety: base.ety,
+			path: append(append([]int{}, base.path...), x.Field), ipath: append(append([]*Term{}, base.ipath...), nil), ty: ft}
 	default:
 		fx.fail("FieldAddr on %s lvalue", base.kind)
 	}
